@@ -10,7 +10,8 @@ import Mathlib.Tactic.Positivity
 # C20 — figures faithfully render the supplied data and prediction bands
 
 * routing (code as it is, all four time-series classes): `C20_row_routing` (= `_pd` ∧ `_pk`),
-  `C20_row_routing_sound`, `C20_ids_nodup`, `C20_row_in_own_trace`, `C20_prediction_scatter`,
+  `C20_row_routing_sound`, `C20_ids_nodup`, `C20_row_in_own_trace`, `C20_dose_and_measurement_row`,
+  `C20_split_dose_rows_counterexample`, `C20_prediction_scatter`,
   `C20_simulation`, `C20_prediction_dose`; pre-fix variants only in `C20_row_routing_pd_legacy_partial`,
   `C20_pd_nonnumeric_id_counterexample`, `C20_pdpredictive_default_nan_counterexample`
 * bands: `C20_band_encloses_any` (any admissible limits), `C20_band_encloses` (chi's choice),
@@ -688,6 +689,33 @@ theorem C20_row_in_own_trace (rows : List (Row ι ο τ ν)) (o : ο) (i j : ι)
     rw [hq.2.2, hi]
     intro h
     exact hne (Option.some.inj h)
+
+/-- a row that carries BOTH a dose and a measurement of the plotted observable (a trough concentration
+    recorded on the row of the dosing event) is drawn twice by `PKTimeSeriesPlot.add_data` /
+    `PKPredictivePlot.add_data`: its (time, value) pair in the marker trace of its individual and its
+    (time, dose) pair in the dose panel of the same individual -/
+theorem C20_dose_and_measurement_row (rows : List (Row ι ο τ ν)) (observable : Option ο) (o : ο)
+    (i : ι) (d : ν) (r : Row ι ο τ ν)
+    (hO : specObs rows observable = some o) (hr : r ∈ rows) (ho : r.obs = some o)
+    (hi : r.id = some i) (hd : r.dose = some d) :
+    ∃ tr, (pkAddData rows observable).1 = .ok tr ∧
+      ∃ t ∈ tr, t.id = some i ∧ (r.time, r.value) ∈ t.pts ∧ (r.time, d) ∈ t.dose := by
+  have hex : ∃ r ∈ rows, r.obs = some o := ⟨r, hr, ho⟩
+  refine ⟨specPK rows o, C20_row_routing_pk rows observable o hO hex,
+    ⟨some i, specDose rows i, specPts rows o i⟩, ?_, rfl, ?_, ?_⟩
+  · unfold specPK
+    refine List.mem_map.mpr ⟨some i, ?_, rfl⟩
+    exact ((C20_ids_nodup rows o).2 i).mpr ⟨r, hr, ho, hi⟩
+  · exact (C20_row_in_own_trace rows o i i r hr ho hi).1
+  · unfold specDose
+    exact List.mem_filterMap.mpr ⟨r, List.mem_filter.mpr ⟨hr, by simp [hi]⟩, by simp [hd]⟩
+
+/-- selecting the measurements among the rows without a dose ("dose events" vs "measurements" as a
+    partition of the frame) loses the measurements recorded on dosing rows -/
+theorem C20_split_dose_rows_counterexample :
+    ∃ rows : List (Row Nat Nat Nat Nat),
+      pkMeasurementsSplit rows 0 1 ≠ specPts rows 0 1 :=
+  ⟨[⟨some 1, some 0, 0, 5, some 10, 1⟩, ⟨some 1, some 0, 1, 7, none, 0⟩], by decide⟩
 
 /-- pre-fix (a0f8893) `"ID: %d" % _id` (Appendix A #16): a PD figure could not be drawn for a frame whose IDs are strings -/
 theorem C20_pd_nonnumeric_id_counterexample :
